@@ -136,6 +136,40 @@ mod driver {
         Value::Object(out)
     }
 
+    /// stress driver for the structural atomicity obligation: many threads make the FIRST request for the same fresh key of an
+    /// engine with burst 1 / max 1; more than one admission for a key means lookup and insert were not one critical section
+    pub fn engine_key_race(_case: &Value) -> Value {
+        use std::sync::atomic::{AtomicUsize, Ordering};
+        use std::sync::{Arc as SArc, Barrier};
+        let cfg = EngineConfig { window: Duration::from_secs(3600), max_requests: 1, burst_size: 1 };
+        let e: SArc<Engine<u64>> = SArc::new(Engine::new(cfg));
+        let threads = 8usize;
+        let rounds = 3000u64;
+        let over = SArc::new(AtomicUsize::new(0));
+        for chunk in 0..(rounds / 100) {
+            let barrier = SArc::new(Barrier::new(threads));
+            let admitted: SArc<Vec<AtomicUsize>> = SArc::new((0..100).map(|_| AtomicUsize::new(0)).collect());
+            let mut hs = Vec::new();
+            for _ in 0..threads {
+                let (e, barrier, admitted) = (e.clone(), barrier.clone(), admitted.clone());
+                hs.push(std::thread::spawn(move || {
+                    barrier.wait();
+                    for k in 0..100u64 {
+                        if e.try_consume_key(&(chunk * 100 + k)) {
+                            admitted[k as usize].fetch_add(1, Ordering::SeqCst);
+                        }
+                    }
+                }));
+            }
+            for h in hs {
+                let _ = h.join();
+            }
+            over.fetch_add(admitted.iter().filter(|a| a.load(Ordering::SeqCst) > 1).count(), Ordering::SeqCst);
+        }
+        let n = over.load(Ordering::SeqCst);
+        json!({"race_observed": n > 0, "detail": format!("{n} of {rounds} fresh keys admitted more than burst=1 request under 8 racing threads")})
+    }
+
     pub fn join_step(case: &Value) -> Value {
         let v6 = case["__params"]["v6"].as_bool().unwrap_or(true);
         let config = JoinRateLimiterConfig {
@@ -197,6 +231,7 @@ fn verif_replay_entry() {
         "bucket_step" => driver::bucket_step(&case),
         "engine_key" => driver::engine_key(&case),
         "join_step" => driver::join_step(&case),
+        "engine_key_race" => driver::engine_key_race(&case),
         other => panic!("unknown driver {other}"),
     };
     println!("VERIF-OBS {}", obs);
